@@ -9,6 +9,7 @@ import (
 	"time"
 
 	"github.com/nsqio/go-nsq"
+	"github.com/nsqio/nsq/internal/verif"
 	"github.com/nsqio/nsq/internal/version"
 )
 
@@ -50,6 +51,7 @@ func connectCallback(n *NSQD, hostname string) func(*lookupPeer) {
 			n.logf(LOG_ERROR, "LOOKUPD(%s): no broadcast address", lp)
 		}
 
+		verif.Ev("LookupConnect", "addr", lp.addr)
 		// build all the commands first so we exit the lock(s) as fast as possible
 		var commands []*nsq.Command
 		n.RLock()
@@ -91,6 +93,9 @@ func (n *NSQD) lookupLoop() {
 	// for announcements, lookupd determines the host automatically
 	ticker := time.NewTicker(15 * time.Second)
 	defer ticker.Stop()
+	if d := verif.LookupHeartbeat(); d > 0 {
+		ticker.Reset(d)
+	}
 	for {
 		if connect {
 			for _, host := range n.getOpts().NSQLookupdTCPAddresses {
@@ -115,6 +120,7 @@ func (n *NSQD) lookupLoop() {
 				n.logf(LOG_DEBUG, "LOOKUPD(%s): sending heartbeat", lookupPeer)
 				cmd := nsq.Ping()
 				_, err := lookupPeer.Command(cmd)
+				verif.Ev("LookupCmd", "addr", lookupPeer.addr, "cmd", "PING", "ok", err == nil)
 				if err != nil {
 					n.logf(LOG_ERROR, "LOOKUPD(%s): %s - %s", lookupPeer, cmd, err)
 				}
@@ -144,9 +150,11 @@ func (n *NSQD) lookupLoop() {
 				}
 			}
 
+			verif.Ev("LookupNotify", "branch", branch, "cmd", cmd.String(), "peers", len(lookupPeers))
 			for _, lookupPeer := range lookupPeers {
 				n.logf(LOG_INFO, "LOOKUPD(%s): %s %s", lookupPeer, branch, cmd)
 				_, err := lookupPeer.Command(cmd)
+				verif.Ev("LookupCmd", "addr", lookupPeer.addr, "cmd", cmd.String(), "ok", err == nil)
 				if err != nil {
 					n.logf(LOG_ERROR, "LOOKUPD(%s): %s - %s", lookupPeer, cmd, err)
 				}
